@@ -72,7 +72,8 @@ with meta_f (A : nat) (np : bool) (f : forest) (start : nat)
 
 (* a nested tensordict is stored in the SAME dict as the reserved entries "cls", "non_tensors", "leaves", "cls_metadata"
    (and the rebuild pops an optional "size"): a sub-tensordict with one of these names corrupts the dict (finding D115) *)
-Definition fixed_D115 : bool := false.
+(* fix: D115 -- the writer escapes such a key ("<TD>" + key) and the readers strip the marker *)
+Definition fixed_D115 : bool := true.
 Definition reserved_raise (k : string) : bool :=
   negb fixed_D115 && (String.eqb k "cls" || String.eqb k "non_tensors" || String.eqb k "leaves" || String.eqb k "cls_metadata")%string.
 Definition reserved_drop (k : string) : bool := negb fixed_D115 && String.eqb k "size".
@@ -124,9 +125,13 @@ with rebuild_subs (storage : list Z) (plocked : bool) (s : mforest) : res forest
 (* ---------------------------------------------------------------- consolidate() *)
 (* the result of consolidate(): _fast_apply(assign_val) over the source: same keys, same order, every tensor replaced by
    its view of the storage; the new nodes are NOT locked (no propagate_lock); names / batch size / device kept *)
-(* consolidate(filename) builds its result with device="cpu" at every level (the metadata records the source's device) *)
+(* consolidate(filename) builds its result with device="cpu" at every level (the metadata records the source's device;
+   the test-suite fixes this behaviour).  fix: D110 -- the result keeps the lock state of the source
+   (propagate_lock=True for a locked root, nested tensordicts locked on their own are locked again). *)
+Definition fixed_D110 : bool := true.
 Definition out_meta (tofile : bool) (m : nmeta) : nmeta :=
-  {| m_bs := m_bs m; m_names := m_names m; m_dev := if tofile then Some 0 else m_dev m; m_locked := false |}.
+  {| m_bs := m_bs m; m_names := m_names m; m_dev := if tofile then Some 0 else m_dev m;
+     m_locked := if fixed_D110 then m_locked m else false |}.
 
 Fixpoint view_t (A : nat) (np tofile : bool) (storage : list Z) (t : tree) (start : nat) : res (tree * nat) :=
   match t with
@@ -190,14 +195,68 @@ with relock_f (plocked : bool) (f : forest) : forest :=
   | FSub k t r => FSub k (relock_t plocked t) (relock_f plocked r)
   end.
 
+(* fix: D12 -- _reduce_td uses the consolidated rebuild only while the snapshot still describes the object
+   (_consolidated_is_current): the metadata recomputed now equals the stored one (keys, dtypes, shapes, offsets, non-tensor
+   data, batch sizes, names, device, lock state) and every tensor is still the view of the storage at its offset *)
+Definition fixed_D12 : bool := true.
+
+Definition seg_eq_dec (a b : seg) : {a = b} + {a <> b}.
+Proof. decide equality; apply Nat.eq_dec. Defined.
+Definition lrec_eq_dec (a b : lrec) : {a = b} + {a <> b}.
+Proof. decide equality; try apply Nat.eq_dec; [apply seg_eq_dec|apply (list_eq_dec Nat.eq_dec)]. Defined.
+Definition nmeta_eq_dec (a b : nmeta) : {a = b} + {a <> b}.
+Proof.
+  decide equality; [apply Bool.bool_dec| |apply (list_eq_dec (fun x y : option string => ltac:(decide equality; apply string_dec)))
+                   |apply (list_eq_dec Nat.eq_dec)].
+  decide equality. apply Nat.eq_dec.
+Defined.
+Definition nts_eq_dec (a b : list (string * (Z * list nat))) : {a = b} + {a <> b}.
+Proof. apply list_eq_dec. decide equality; [decide equality; [apply (list_eq_dec Nat.eq_dec)|apply Z.eq_dec]|apply string_dec]. Defined.
+Definition lvs_eq_dec (a b : list (string * lrec)) : {a = b} + {a <> b}.
+Proof. apply list_eq_dec. decide equality; [apply lrec_eq_dec|apply string_dec]. Defined.
+Fixpoint mtree_eq_dec (a b : mtree) : {a = b} + {a <> b}
+with mforest_eq_dec (a b : mforest) : {a = b} + {a <> b}.
+Proof.
+  - decide equality; [apply lvs_eq_dec|apply nts_eq_dec|apply nmeta_eq_dec].
+  - decide equality. apply string_dec.
+Defined.
+
+(* every tensor is the view at its offset of the layout of the current content *)
+Fixpoint vok_t (A : nat) (np : bool) (t : tree) (start : nat) : bool * nat :=
+  match t with Node _ f => vok_f A np f start end
+with vok_f (A : nat) (np : bool) (f : forest) (start : nat) : bool * nat :=
+  match f with
+  | FNil => (true, start)
+  | FLeaf _ l v r =>
+      let '(b, e) := vok_f A np r (start + flat_size A np (spec_of l)) in
+      ((match v with Some s => s =? start | None => false end) && b, e)
+  | FNonT _ _ _ r => vok_f A np r start
+  | FSub _ t r => let '(b1, mid) := vok_t A np t start in let '(b2, e) := vok_f A np r mid in (b1 && b2, e)
+  end.
+
+Definition snapshot_current (st : cstate) (sn : snapshot) : bool :=
+  (if mtree_eq_dec (fst (meta_t align_unit true (cur st) 0)) (sn_meta sn) then true else false)
+  && fst (vok_t align_unit true (cur st) 0).
+
+Fixpoint unview_t (t : tree) : tree := match t with Node m f => Node m (unview_f f) end
+with unview_f (f : forest) : forest :=
+  match f with
+  | FNil => FNil
+  | FLeaf k l _ r => FLeaf k l None (unview_f r)
+  | FNonT k p bs r => FNonT k p bs (unview_f r)
+  | FSub k t r => FSub k (unview_t t) (unview_f r)
+  end.
+
 (* pickle.loads(pickle.dumps(td)) / copy.deepcopy(td): the new object *)
 Definition pickle_roundtrip (st : cstate) : res cstate :=
   match snap st with
   | Some sn =>
-      match rebuild_t (sn_storage sn) false (sn_meta sn) with
-      | Ok t => Ok {| cur := t; snap := Some sn |}
-      | Raised e => Raised e
-      end
+      if negb fixed_D12 || snapshot_current st sn then
+        match rebuild_t (sn_storage sn) false (sn_meta sn) with
+        | Ok t => Ok {| cur := t; snap := Some sn |}
+        | Raised e => Raised e
+        end
+      else Ok {| cur := unview_t (relock_t false (cur st)); snap := None |}   (* the stale snapshot does not travel *)
   | None => Ok {| cur := relock_t false (cur st); snap := None |}
   end.
 
@@ -401,16 +460,6 @@ Fixpoint sub_at (t : tree) (path : list string) : option tree :=
   end.
 Definition leaf_at (t : tree) (path : list string) (k : string) : option leaf :=
   match sub_at t path with Some n => find_leaf (ents n) k | None => None end.
-
-(* a tree without the view flags *)
-Fixpoint unview_t (t : tree) : tree := match t with Node m f => Node m (unview_f f) end
-with unview_f (f : forest) : forest :=
-  match f with
-  | FNil => FNil
-  | FLeaf k l _ r => FLeaf k l None (unview_f r)
-  | FNonT k p bs r => FNonT k p bs (unview_f r)
-  | FSub k t r => FSub k (unview_t t) (unview_f r)
-  end.
 
 (* the rebuild's key order: non-tensors, then leaves, then sub-tensordicts (each in their original relative order) *)
 Fixpoint part_n (f : forest) : forest :=
